@@ -292,4 +292,7 @@ def run(rep):
     # the implementation-shaped layer: rule engine model check + hook-based conformance (non-gating, reported in the evidence)
     from props import pipeline_part
     pipeline_part.run(rep, quick)
+    # the kind algebra (spec/Kinds.tla): A op B for every pair of kinds; descriptive, non-gating ("drift")
+    from props import kinds_part
+    kinds_part.run(rep, quick)
     rep.extra["explanation"] = ("panic / termination freedom is bounded exploration driven by the alphabet the model enumerates; TLC validates the slot structure of every execution")
